@@ -128,7 +128,10 @@ impl Language for Scala {
             writeln!(w, " */")?;
         }
         if self.package.is_empty() {
-            panic!("package name must be provided")
+            return Err(std::io::Error::new(
+                std::io::ErrorKind::InvalidInput,
+                "package name must be provided",
+            ));
         }
         match self.package.rsplit_once('.') {
             None => {}
@@ -236,7 +239,10 @@ impl Language for Scala {
         _writer: &mut dyn Write,
         _imports: super::ScopedCrateTypes<'_>,
     ) -> std::io::Result<()> {
-        unimplemented!()
+        Err(std::io::Error::new(
+            std::io::ErrorKind::Unsupported,
+            "multi-file output is not supported for Scala yet",
+        ))
     }
 }
 
